@@ -1,4 +1,5 @@
 import RV.C07.Model
+import RV.C07.ReadTerm
 import RV.Base.Proto
 /-
   C07 driver (stateless).  Strings cross the protocol as comma-separated decimal code points,
@@ -11,6 +12,7 @@ import RV.Base.Proto
     n3 T              -> code points of the model's n3() text | error
     rd <norm> <text>  -> the term the model's from_n3 reads | dflt | unmodelled | error:<e>
     rdq <norm> <text> p1 ns1 … pk nsk  -> the same with `nsm` = the namespace manager whose bindings are the pairs
+    rdt <norm> <text> p1 ns1 … -> `<term> | <rest>` read by the grammar-level reader `readTerm` (prefix table as for rdq) | none
     rt T              -> rebuild (reduce T)  as a term | error:<e>
     mk <norm> <lex> <lang|-> <dt|->  -> Literal.__new__ | error:<e>
     sort T1 … Tn      -> the terms sorted with `<` (insertion sort), separated by ` ; `
@@ -111,6 +113,13 @@ def step (s : Unit) : List String → Unit × String
   | "rdq" :: nz :: txt :: rest =>
     match str? txt, pairs? rest with
     | some t, some tbl => (s, showRd (fromN3 { drvExt with nsm := some tbl } (nz = "1") t))
+    | _, _ => (s, "bad-op")
+  | "rdt" :: nz :: txt :: rest =>
+    match str? txt, pairs? rest with
+    | some t, some tbl =>
+      match readTerm { drvExt with nsm := some tbl } (nz = "1") t with
+      | some (tm, r) => (s, showTerm tm ++ " | " ++ showStr r)
+      | none => (s, "none")
     | _, _ => (s, "bad-op")
   | "rt" :: rest =>
     match term? rest with
